@@ -69,7 +69,7 @@ StepOf(e) == CASE e.ev = "WRecvBootstrap" -> WRecvBootstrap(e.arg)
                [] e.ev = "Skip" -> UNCHANGED view       \* a message the model does not describe (mechanic): changes nothing modelled
                [] OTHER -> FALSE
 
-L1Clauses == {"Barrier", "AtMostOnce", "ExactlyOnceAtEnd", "CompleteOnce", "CompletedByNamed", "CompletedByEnds", "NoSpuriousFailure", "NoCrossElementCut",
+L1Clauses == {"Barrier", "AtMostOnce", "ExactlyOnceAtEnd", "CompleteOnce", "CompletedByNamed", "CompletedByEnds", "CompletedByCuts", "NoSpuriousFailure", "NoCrossElementCut",
               "NoStall", "NoHang", "SampleConservation", "AllSamplesAtRaceControl", "OnlyFullQueueDrops", "FinalRecords",
               "FaultNeverSuccess", "NoResultsOnFailure", "CancelNoResults", "FaultReported"}
 
@@ -98,6 +98,12 @@ Holds(c, e) ==
       [] c = "CompletedByNamed" -> CompletedByNamed'
       [] c = "CompletedByEnds" -> CompletedByEnds'
       [] c = "NoSpuriousFailure" -> NoSpuriousFailure'
+      \* the element ENDS for the other tasks: a client whose worker had been told to complete before its request returned, and
+      \* whose task is not the named one, does not go on with that task (holds for every ExecStep of RaceDriver.tla)
+      [] c = "CompletedByCuts" ->
+             (e.ev = "ExecStep" /\ e.arg \in Clients(scn)) =>
+                 LET cc == e.arg  ww == scn.workerOf[cc + 1] IN
+                 (wk[ww].complete /\ wk[ww].alive /\ cell[cc].st = "pend" /\ ~CellAt(scn, cc, cell[cc].col).t.cp) => cell'[cc].st # "pend"
       [] c = "NoCrossElementCut" -> NoCrossElementCut'
       [] c = "NoStall" -> NoStall'
       [] c = "NoHang" -> e.ev # "Hang"
